@@ -394,22 +394,22 @@ func writeEvidenceFull(root, prop, tier string, seed int, res *checkResult, nPro
 	}
 	cov := map[string]interface{}{
 		"obligations": nProof, "discharged": nDischarged,
-		"checker_cmd":       fmt.Sprintf("bin/gvc check -prop %s -tier %s", prop, tier),
-		"trusted_base":      trustedAll,
-		"functions_under_contract": res.funcs,
-		"obligations_by_kind":      byKind,
-		"discharged_by_solver":     bySolver,
-		"solver_time_total_s":      total,
-		"solver_time_max_s":        maxT,
-		"slowest_obligation":       maxName,
-		"vacuity_probes":           nvac,
+		"checker_cmd":               fmt.Sprintf("bin/gvc check -prop %s -tier %s", prop, tier),
+		"trusted_base":              trustedAll,
+		"functions_under_contract":  res.funcs,
+		"obligations_by_kind":       byKind,
+		"discharged_by_solver":      bySolver,
+		"solver_time_total_s":       total,
+		"solver_time_max_s":         maxT,
+		"slowest_obligation":        maxName,
+		"vacuity_probes":            nvac,
 		"vacuity_probes_with_model": nvacSat,
-		"samples":                  samples,
-		"known_findings_matched":   knownHits,
-		"undecided":                und,
-		"binding_errors":           res.bindErrs,
-		"abstraction_notes":        notes,
-		"explanation":              "Contract-based deductive verification: every obligation is a VC generated from /repo's SSA and discharged by an SMT solver. " + expl,
+		"samples":                   samples,
+		"known_findings_matched":    knownHits,
+		"undecided":                 und,
+		"binding_errors":            res.bindErrs,
+		"abstraction_notes":         notes,
+		"explanation":               "Contract-based deductive verification: every obligation is a VC generated from /repo's SSA and discharged by an SMT solver. " + expl,
 	}
 	ev := map[string]interface{}{
 		"property_id": prop, "tier": tier, "seed": seed, "level": level, "wall_s": wall, "violations": nViol,
